@@ -143,6 +143,7 @@ class Generator {
     int lo = rng_.below(4), hi = lo + rng_.below(3);
     if (rng_.below(100) < cfg_.inverted_pct) { lo = rng_.range(1, 4); hi = rng_.below(lo); }
     o.a[5] = lo; o.a[6] = hi > 4 ? 4 : hi;
+    if (shape_table[shape].bf == BF_RTAL && rng_.chance(1, 4)) o.a[5] = 4;   // AT_LEAST(2^40)
     o.a[7] = rng_.below(8); o.a[8] = rng_.below(2); o.a[9] = rng_.below(4);
     if (scoped_pct_ && rng_.below(100) < scoped_pct_) o.a[8] |= 2;   // the scoped macro form (top-level operations only)
     return o;
